@@ -251,15 +251,19 @@ func openBound(files map[string]string) int {
 			k = n
 		}
 	}
+	// (the bound is capped to keep a runaway recursion finite; one file alone can hold more
+	// $INCLUDE lines than the cap - thorough directive runs have up to 400000 -, and these are
+	// all opened legitimately)
+	limit := max(200000, 2*k)
 	total, p := 0, 1
 	for d := 1; d <= 7; d++ {
-		if k > 0 && p > 200000/k {
-			return 200000
+		if k > 0 && p > limit/k {
+			return limit
 		}
 		p *= k
 		total += p
-		if total > 200000 {
-			return 200000
+		if total > limit {
+			return limit
 		}
 	}
 	return total
@@ -441,6 +445,9 @@ func capExpansion(raw string) string {
 		if n, ok := rangeSteps(stripLex(rest[i:j])); ok {
 			steps = n
 		}
+		if from+i < last {
+			continue // the keyword is part of the range token that was just replaced
+		}
 		if n := logicalLineLen(rest); steps*(n+24*strings.Count(rest[:n], "$")+1) > share && j > i {
 			sb.WriteString(raw[last : from+i])
 			sb.WriteString("1-2")
@@ -472,6 +479,12 @@ func rangeSteps(tok string) (int, bool) {
 // logicalLineLen: the length of the logical line that s starts with, including its line end: a
 // line end inside quotes, inside parentheses or behind a backslash does not end it.
 func logicalLineLen(s string) int {
+	n, _ := logicalLine(s)
+	return n
+}
+
+// logicalLine also tells whether s ended inside a quoted string before the line did.
+func logicalLine(s string) (int, bool) {
 	esc, quote, comment := false, false, false
 	depth := 0
 	for i := 0; i < len(s); i++ {
@@ -479,7 +492,7 @@ func logicalLineLen(s string) int {
 		if comment {
 			if c == '\n' {
 				if comment = false; depth <= 0 {
-					return i + 1
+					return i + 1, false
 				}
 			}
 			continue
@@ -505,11 +518,37 @@ func logicalLineLen(s string) int {
 			}
 		case '\n':
 			if !quote && depth <= 0 {
-				return i + 1
+				return i + 1, false
 			}
 		}
 	}
-	return len(s)
+	return len(s), quote
+}
+
+// generateInOpenQuote: the logical line of a $GENERATE directive of the text runs to the end of
+// the text inside a quoted string that is never closed.
+func generateInOpenQuote(raw string) bool {
+	if !strings.Contains(normLex(raw), "$GENERATE") {
+		return false
+	}
+	up := asciiUpper(raw)
+	found := false
+	for from := 0; from < len(up); {
+		g := strings.Index(up[from:], "$GENERATE")
+		if g < 0 {
+			break
+		}
+		from += g + len("$GENERATE")
+		found = true
+		if _, open := logicalLine(raw[from:]); open {
+			return true
+		}
+	}
+	if !found {
+		_, open := logicalLine(raw)
+		return open
+	}
+	return false
 }
 
 // stackBound: a parse needs a few KiB of stack (the depth limit above: 100 frames); the stacks of
